@@ -146,7 +146,7 @@ pub struct Obs {
     pub asserts: u64,
     pub classes: Vec<String>,
     pub nontrivial: bool,
-    hasher: Option<std::collections::hash_map::DefaultHasher>,
+    pub hasher: Option<std::collections::hash_map::DefaultHasher>,
     pub max_err: f64,
     pub want_desc: bool,
     pub desc: Option<Value>,
@@ -278,7 +278,7 @@ impl Report {
 }
 
 /// A property check. `run_case` decodes one case from the entropy and checks it.
-pub trait Check: Sync {
+pub trait Check: Sync + Send {
     fn id(&self) -> &'static str;
     /// number of u64 of entropy per random case
     fn entropy_len(&self) -> usize;
@@ -343,7 +343,7 @@ pub fn catch<R>(f: impl FnOnce() -> R) -> Result<R, String> {
     }
 }
 
-fn guarded_case(check: &dyn Check, data: &[u64], obs: &mut Obs) -> Result<(), Fail> {
+pub fn guarded_case(check: &dyn Check, data: &[u64], obs: &mut Obs) -> Result<(), Fail> {
     let mut src = Src::new(data);
     match catch(|| check.run_case(&mut src, obs)) {
         Ok(r) => r,
